@@ -130,13 +130,21 @@ func concParallel(args []string) error {
 	}
 	// Phase 2: alone, one after the other. Written first, so that a parallel event can name its
 	// twin by line number.
-	line := 0
-	soloStart := make([]int, len(hists))
-	for i, ops := range hists {
-		evs, err := runHist(i+1, ops)
+	// They are EXECUTED in reverse order (and written in order): whatever one history could leave behind
+	// for another through hidden shared state then differs from the parallel phase, where the
+	// histories are started in ascending order.
+	solo := make([][]vh.Event, len(hists))
+	for i := len(hists) - 1; i >= 0; i-- {
+		evs, err := runHist(i+1, hists[i])
 		if err != nil {
 			return err
 		}
+		solo[i] = evs
+	}
+	line := 0
+	soloStart := make([]int, len(hists))
+	for i := range hists {
+		evs := solo[i]
 		soloStart[i] = line + 1
 		for _, ev := range evs {
 			line++
